@@ -3878,7 +3878,7 @@ Case_BaseLdurStur:
           goto InvalidInstruction;
 
         // The size comes from the first source of a long instruction, so the destination has to be checked against it.
-        if ((inst_flags & InstDB::kInstFlagLong) && !check_wide_scalar(o1, o0))
+        if ((inst_flags & InstDB::kInstFlagLong) && !check_wide_operand(o1, o0, inst_flags))
           goto InvalidInstruction;
 
         if (!o2.as<Vec>().has_element_index()) {
